@@ -133,6 +133,24 @@ def cut_by_edges(cfg, site, edges):
     return True
 
 
+def cut_from(cfg, start, site, edges):
+    """True iff every path start -> site uses one of the given CFG edges (start != site)"""
+    edges = set(edges)
+    seen = set([start])
+    st = [start]
+    while st:
+        x = st.pop()
+        for y in cfg.succ[x]:
+            if (x, y) in edges:
+                continue
+            if y == site:
+                return False
+            if y not in seen:
+                seen.add(y)
+                st.append(y)
+    return True
+
+
 def bool_edges(ctx, b, pred):
     """edges (switch bb, target) on which a boolean condition accepted by pred(op, A, B) holds.
     pred receives the comparison as it holds on that edge (negations folded: '!Lt' etc.)"""
@@ -301,7 +319,7 @@ TABLE = {
     ('rasterizer::Rasterizer::reset', 'panic', 'assert_failed'): (6, 'range', 'debug_assert_eq!s on the early-out: the state is clean when bounds_bottom < bounds_top'),
     ('rasterizer::Rasterizer::reset', 'slice', 'self.edge_starts[Range]'): (1, 'else', 'start/end clamped to [0, height] (R10.2)'),
     ('rasterizer::Rasterizer::insert_starting_edges', 'index', 'self.edge_starts'): (1, 'else', 'cur_y runs over [max(top,0), min(bottom,height)) (R10.2 forms)'),
-    ('rasterizer::Rasterizer::add_edge', 'index', 'self.edge_starts'): (2, 'guard', '0 <= cury < height: y1 >= height returns, negative rows are stepped up to 0, height == 0 returns in apply_path', 'add_edge_row'),
+    ('rasterizer::Rasterizer::add_edge', 'index', 'self.edge_starts'): (2, 'guard', '0 <= cury < height and cury < y2: y1 >= height returns, negative rows are stepped up to 0 and re-tested against y2, height == 0 returns in apply_path', 'add_edge_row'),
     ('rasterizer::Rasterizer::add_edge', 'div', '(f32_to_dot2(end.y) Sub f32_to_dot2(start.y))'): (1, 'guard', 'y2 - y1 != 0: horizontal edges return first', 'add_edge_slope'),
     ('rasterizer::Rasterizer::add_edge', 'div', 'dot16_to_dot2(((*alloc(&(*self).edge_arena, new())).next_y S'): (1, 'range', 'curve slope divisor: catch-up loop leaves next_y below the current row only when count == 0, then next_y := y2 > cury'),
     ('rasterizer::div_fixed16_fixed16', 'div', '(b as i64)'): (1, 'range', 'step(): guarded by (cury + 1) < y2 at the call site'),
@@ -390,6 +408,16 @@ def g_add_edge_row(ctx, b, hs):
         ok = ok and cut_by_edges(cfg, h[2], lo) and cut_by_edges(cfg, h[2], hi) and cut_by_edges(cfg, h[2], hz)
         idx = strip_casts(h[3]['index'])
         ok = ok and idx[0] in ('phi', 'rec', 'call', 'field')
+    # the row is stepped (cury += 1) while it is negative: the horizontal-edge test must be repeated after the last step
+    inloop = set()
+    for hh, bl in cfg.loops().items():
+        inloop |= bl
+    for h in hs:
+        idx = strip_casts(h[3]['index'])
+        if idx[0] == 'phi':
+            for d in an.defs_of.get(idx[1], []):
+                if d.bb in inloop and d.bb != h[2]:
+                    ok = ok and cut_from(cfg, d.bb, h[2], hz)
     ap = ctx.F.body('raqote::draw_target::DrawTarget::apply_path')
     if ap is None:
         return False
